@@ -37,9 +37,97 @@ def modname_of(relpath):
     return ".".join(p)
 
 
+GEN_ACC = "__gen_acc"
+
+
+def _own_nodes(fn_node):
+    """Nodes of a function body, not descending into nested functions / lambdas / classes."""
+    todo = list(fn_node.body)
+    while todo:
+        n = todo.pop()
+        yield n
+        for c in ast.iter_child_nodes(n):
+            if not isinstance(c, (ast.FunctionDef, ast.AsyncFunctionDef, ast.Lambda, ast.ClassDef)):
+                todo.append(c)
+
+
+def is_generator_def(fn_node):
+    return any(isinstance(n, (ast.Yield, ast.YieldFrom)) for n in _own_nodes(fn_node))
+
+
+class _YieldLowering(ast.NodeTransformer):
+    """yield e -> __gen_acc.append(e); yield from x -> __gen_acc.extend(x); return -> return __gen_acc."""
+
+    def __init__(self):
+        self.ok = True
+
+    def visit_FunctionDef(self, node):
+        return node  # nested functions keep their own yields
+
+    visit_AsyncFunctionDef = visit_Lambda = visit_ClassDef = visit_FunctionDef
+
+    def _acc(self, method, value, at):
+        call = ast.Call(func=ast.Attribute(value=ast.Name(id=GEN_ACC, ctx=ast.Load()), attr=method, ctx=ast.Load()), args=[value], keywords=[])
+        st = ast.Expr(value=call)
+        return ast.fix_missing_locations(ast.copy_location(st, at))
+
+    def visit_Expr(self, node):
+        v = node.value
+        if isinstance(v, ast.Yield):
+            return self._acc("append", v.value if v.value is not None else ast.Constant(value=None), node)
+        if isinstance(v, ast.YieldFrom):
+            return self._acc("extend", v.value, node)
+        self.generic_visit(node)
+        return node
+
+    def visit_Yield(self, node):
+        self.ok = False  # a yield used as an expression (x = yield ...): not lowered
+        return node
+
+    visit_YieldFrom = visit_Yield
+
+    def visit_Return(self, node):
+        if node.value is not None:
+            self.ok = False
+            return node
+        return ast.fix_missing_locations(ast.copy_location(ast.Return(value=ast.Name(id=GEN_ACC, ctx=ast.Load())), node))
+
+
+def lower_generator(fn_node):
+    """A list-returning twin of a generator function (same elements, same order; evaluation is eager).
+    Returns None when the generator uses yield as an expression or returns a value."""
+    import copy
+    new = copy.deepcopy(fn_node)
+    tr = _YieldLowering()
+    new.body = [tr.visit(st) for st in new.body]
+    flat = []
+    for st in new.body:
+        flat.extend(st if isinstance(st, list) else [st])
+    if not tr.ok:
+        return None
+    init = ast.Assign(targets=[ast.Name(id=GEN_ACC, ctx=ast.Store())], value=ast.List(elts=[], ctx=ast.Load()))
+    fin = ast.Return(value=ast.Name(id=GEN_ACC, ctx=ast.Load()))
+    at = fn_node.body[0] if fn_node.body else fn_node
+    ast.fix_missing_locations(ast.copy_location(init, at))
+    ast.fix_missing_locations(ast.copy_location(fin, fn_node.body[-1] if fn_node.body else fn_node))
+    # keep a leading docstring first
+    if flat and isinstance(flat[0], ast.Expr) and isinstance(flat[0].value, ast.Constant) and isinstance(flat[0].value.value, str):
+        new.body = [flat[0], init] + flat[1:] + [fin]
+    else:
+        new.body = [init] + flat + [fin]
+    return new
+
+
 class FunctionInfo:
     def __init__(self, qualname, node, module, cls=None):
         self.qualname = qualname  # e.g. netconan.ip_anonymization._BaseIpAnonymizer.anonymize
+        # a generator function is analysed through its list-returning twin (the original is kept for loop fusion)
+        self.gen_orig = None
+        if is_generator_def(node):
+            low = lower_generator(node)
+            if low is not None:
+                self.gen_orig = node
+                node = low
         self.node = node
         self.module = module
         self.cls = cls  # ClassInfo or None
@@ -63,6 +151,14 @@ class FunctionInfo:
         for p, d in zip(self.kwonly, a.kw_defaults):
             if d is not None:
                 self.defaults[p] = d
+
+    @property
+    def mparams(self):
+        """Positional parameters with a receiver slot in front for every function defined in a class: a method turned into a
+        @staticmethod keeps its parameter positions (index 0 = receiver, 1 = first real parameter)."""
+        if self.cls is not None and "staticmethod" in self.decorators:
+            return ["<static>"] + self.params
+        return self.params
 
     @property
     def is_classmethod(self):
@@ -125,6 +221,43 @@ class ClassInfo:
         return "<class %s>" % self.qualname
 
 
+class _SuppressLowering(ast.NodeTransformer):
+    """with contextlib.suppress(E1, E2): BODY   ->   try: BODY / except (E1, E2): pass   (what suppress does)."""
+
+    def __init__(self, tree):
+        self.names = set()  # local names bound to contextlib.suppress
+        self.mods = set()  # local names bound to the contextlib module
+        for st in ast.walk(tree):
+            if isinstance(st, ast.ImportFrom) and st.module == "contextlib" and not st.level:
+                for a in st.names:
+                    if a.name == "suppress":
+                        self.names.add(a.asname or a.name)
+            elif isinstance(st, ast.Import):
+                for a in st.names:
+                    if a.name == "contextlib":
+                        self.mods.add(a.asname or a.name)
+
+    def _is_suppress(self, call):
+        if not isinstance(call, ast.Call) or call.keywords:
+            return False
+        f = call.func
+        if isinstance(f, ast.Name):
+            return f.id in self.names
+        return isinstance(f, ast.Attribute) and f.attr == "suppress" and isinstance(f.value, ast.Name) and f.value.id in self.mods
+
+    def visit_With(self, node):
+        self.generic_visit(node)
+        if len(node.items) == 1 and node.items[0].optional_vars is None and self._is_suppress(node.items[0].context_expr):
+            excs = node.items[0].context_expr.args
+            if excs and not any(isinstance(a, ast.Starred) for a in excs):
+                typ = excs[0] if len(excs) == 1 else ast.Tuple(elts=list(excs), ctx=ast.Load())
+                h = ast.ExceptHandler(type=typ, name=None, body=[ast.copy_location(ast.Pass(), node)])
+                tr = ast.Try(body=node.body, handlers=[h], orelse=[], finalbody=[])
+                ast.copy_location(h, node)
+                return ast.fix_missing_locations(ast.copy_location(tr, node))
+        return node
+
+
 class ModuleInfo:
     def __init__(self, name, relpath, text):
         self.name = name
@@ -134,6 +267,9 @@ class ModuleInfo:
             self.tree = ast.parse(text, filename=relpath)
         except SyntaxError as e:
             raise AnalysisError("cannot parse %s: %s" % (relpath, e))
+        low = _SuppressLowering(self.tree)
+        if low.names or low.mods:
+            self.tree = low.visit(self.tree)
         self.imports = {}  # local name -> ("module", dotted) | ("name", dotted_module, attr)
         self.assigns = {}  # module-level name -> list of ast expr (in order)
         self.functions = {}
@@ -162,9 +298,106 @@ class Program:
                 r = self.resolve_global_expr(c.module, b)
                 if r and r[0] == "class":
                     c.bases.append(r[1])
+        self.namedtuples = {}  # (module name, type name) -> [field names]
+        self._collect_namedtuples()
+        self._collect_sentinels()
         self.lambdas = {}  # id(node) -> (FunctionInfo owner, node)
         self.rename_map = {}  # current name -> reference (anchor) name
         self._detect_renames()
+
+    def _collect_namedtuples(self):
+        """Record-like tuple types of the package: collections.namedtuple / typing.NamedTuple (functional or class form).
+        A value of such a type is analysed as the plain tuple of its fields."""
+        def ext(m, node):
+            r = self.resolve_global_expr(m, node)
+            return r[1] if r and r[0] == "ext" else None
+        for m in self.modules.values():
+            for name, values in m.assigns.items():
+                if len(values) != 1 or not isinstance(values[0], ast.Call):
+                    continue
+                call = values[0]
+                q = ext(m, call.func)
+                if q not in ("collections.namedtuple", "typing.NamedTuple") or len(call.args) < 2:
+                    continue
+                spec = call.args[1]
+                fields = None
+                if isinstance(spec, ast.Constant) and isinstance(spec.value, str):
+                    fields = spec.value.replace(",", " ").split()
+                elif isinstance(spec, (ast.List, ast.Tuple)):
+                    fields = []
+                    for e in spec.elts:
+                        if isinstance(e, ast.Constant) and isinstance(e.value, str):
+                            fields.append(e.value)
+                        elif isinstance(e, (ast.Tuple, ast.List)) and e.elts and isinstance(e.elts[0], ast.Constant) and isinstance(e.elts[0].value, str):
+                            fields.append(e.elts[0].value)
+                        else:
+                            fields = None
+                            break
+                if fields:
+                    self.namedtuples[(m.name, name)] = fields
+            for c in m.classes.values():
+                if any(ext(m, b) == "typing.NamedTuple" for b in c.base_exprs):
+                    fields = [st.target.id for st in c.node.body if isinstance(st, ast.AnnAssign) and isinstance(st.target, ast.Name)]
+                    if fields and not c.methods:
+                        self.namedtuples[(m.name, c.name)] = fields
+        self.nt_field_index = {}  # field name -> index when every record type having the field agrees on its position
+        clash = set()
+        for fields in self.namedtuples.values():
+            for i, fname in enumerate(fields):
+                if self.nt_field_index.setdefault(fname, i) != i:
+                    clash.add(fname)
+        for fname in clash:
+            del self.nt_field_index[fname]
+        # a field name that is also a method / attribute of a package class is not resolved by name alone
+        for c in self.classes.values():
+            for n in list(c.methods) + list(c.assigns):
+                self.nt_field_index.pop(n, None)
+
+    def _collect_sentinels(self):
+        """Module-level `X = object()` markers that are only ever returned or compared by identity: such an object is
+        identical to nothing but itself, and cannot be found inside a container or be produced by a computation."""
+        self.sentinels = set()
+        for m in self.modules.values():
+            for name, values in m.assigns.items():
+                if len(values) == 1 and isinstance(values[0], ast.Call) and isinstance(values[0].func, ast.Name) and values[0].func.id == "object" and not values[0].args and not values[0].keywords:
+                    self.sentinels.add((m.name, name))
+        if not self.sentinels:
+            return
+        for m in self.modules.values():
+            parents = {}
+            for n in ast.walk(m.tree):
+                for c in ast.iter_child_nodes(n):
+                    parents[id(c)] = n
+            for n in ast.walk(m.tree):
+                if isinstance(n, ast.Name) and isinstance(n.ctx, ast.Load):
+                    r = self.resolve_module_name(m, n.id)
+                    if r and r[0] == "const" and (r[1].name, r[2]) in self.sentinels:
+                        par = parents.get(id(n))
+                        ok = isinstance(par, ast.Return) or (isinstance(par, ast.Compare) and all(isinstance(o, (ast.Is, ast.IsNot)) for o in par.ops))
+                        if not ok:
+                            self.sentinels.discard((r[1].name, r[2]))
+
+    def nt_return_fields(self, f):
+        """Field list when every `return` of package function f builds one record type, else None."""
+        from .source import _own_nodes as own
+        found = None
+        for n in own(f.node):
+            if isinstance(n, ast.Return):
+                v = n.value
+                if not isinstance(v, ast.Call):
+                    return None
+                r = self.resolve_global_expr(f.module, v.func)
+                key = None
+                if r and r[0] == "const":
+                    key = (r[1].name, r[2])
+                elif r and r[0] == "class":
+                    key = (r[1].module.name, r[1].name)
+                if key not in self.namedtuples:
+                    return None
+                if found is not None and found != key:
+                    return None
+                found = key
+        return self.namedtuples[found] if found else None
 
     @classmethod
     def from_root(cls, root):
